@@ -189,6 +189,12 @@ def search(run, info):
             if pad > 0:
                 texts.append(("long", "(* " + "p" * pad + " *)\n" + tail))
 
+    # an unterminated string or comment runs to the end of the file and is quoted in its diagnostic: a character outside ASCII at
+    # every offset around the sizes a message might be cut at (and, at the thorough tier, at every offset up to 1100)
+    offs = list(range(236, 276)) + list(range(500, 520)) if run.tier == "quick" else list(range(1, 1100))
+    for k in offs:
+        for opener, ch in (("'", "é"), ("(* ", "€"), ('"', "ß")):
+            texts.append(("unterminated", "PROGRAM pu\nVAR s : STRING; END_VAR\ns := %s%s%s tail (* ü *) more text to the end\nEND_PROGRAM\n" % (opener, "a" * k, ch)))
     cases = []
     meta = []
     for ti, (tag, t) in enumerate(texts):
